@@ -108,6 +108,7 @@ def fcall(ex, b, rty, args, mem):
     if b == 'fmod': return FV(n, fp=z3.fpRem(args[0].fp, args[1].fp)) if False else FV(n, fp=_uf(ex, 'fmod%d' % n, [srt, srt, srt])(args[0].fp, args[1].fp))
     if b in TRANSC:
         f = _uf(ex, '%s%d' % (b, n), [srt] * (len(args) + 1))
+        ex.__dict__.setdefault('call_log', []).append((b, n, [a.fp for a in args], ex.cur_cond))     # (additive, C13) libm call sites with their path condition, for domain claims
         return FV(n, fp=f(*[a.fp for a in args]))
     raise Unsupported('float call ' + b)
 
